@@ -240,9 +240,9 @@ Proof. rewrite !Forall_forall. intros H i Hi. apply filter_In in Hi as [Hi _]. a
 
 (* ---------------- model = specification ---------------- *)
 
-Theorem insert_i_spec t e mode : wf_itier t -> insert_i t e mode = insert_spec t e mode.
+Theorem insert_i_spec t e mode : wf_itier t -> insert_i_core t e mode = insert_spec t e mode.
 Proof.
-  intros Hwf. pose proof Hwf as (Hw & Hs & Hl). unfold insert_i, insert_spec.
+  intros Hwf. pose proof Hwf as (Hw & Hs & Hl). unfold insert_i_core, insert_spec.
   rewrite (crop_i_spec _ _ _ _ _ Hwf). unfold crop_spec.
   destruct (Z.leb_spec (iend e) (istart e)) as [|He]; [reflexivity|]. cbn [bind ients crop_spec_ents].
   set (ms := filter (overlapsb (istart e) (iend e)) (ients t)).
@@ -288,7 +288,7 @@ Qed.
 (* the result is a well-formed entry list again (labels aside: the new label is
    stored as given) *)
 Theorem insert_i_wf_ients t e mode t' :
-  wf_itier t -> insert_i t e mode = Ok t' ->
+  wf_itier t -> insert_i_core t e mode = Ok t' ->
   wf_ients (ients t') /\ Forall (in_span (imin t') (imax t')) (ients t').
 Proof.
   intros Hwf. pose proof Hwf as (Hw & Hs & Hl). rewrite (insert_i_spec _ _ _ Hwf). unfold insert_spec.
@@ -333,3 +333,14 @@ Proof.
               apply filter_In in Hm as [Hm _]. destruct (Hs m Hm). lia.
         -- apply filter_In in Hj as [Hj _]. destruct (Hs j Hj). unfold in_span. lia.
 Qed.
+
+Lemma strip_i_stripped e : stripped (ilabel e) -> strip_i e = e.
+Proof. destruct e as [a b lab]; unfold strip_i; simpl. intros ->. reflexivity. Qed.
+
+Lemma insert_i_stripped t e m : stripped (ilabel e) -> insert_i t e m = insert_i_core t e m.
+Proof. intro H. unfold insert_i. now rewrite strip_i_stripped. Qed.
+
+(* the public insertEntry on any entry: policy applied to the normalised entry,
+   and the tier is fully well-formed afterwards (labels included) *)
+Theorem insert_i_public_spec t e mode : wf_itier t -> insert_i t e mode = insert_spec t (strip_i e) mode.
+Proof. intro H. unfold insert_i. apply insert_i_spec, H. Qed.
